@@ -570,13 +570,13 @@ class VmdkSuite(Suite):
                 if kind in ("sectors",):
                     model = f"vmdk_read_sectors v {Z(a)} {Z(b)}"
                 elif kind == "dsectors":
-                    model = f"Ok (map (fun s => (0, s)) (raw_read_sectors 0 {Z(a)} {Z(b)}))"
+                    model = f"Ok (map (fun s => (0, s)) (raw_read_sectors 0 0 {Z(a)} {Z(b)}))"
                 elif kind == "raw":
                     model = f"vmdk_read v {Z(a)} {Z(b)}"
                 else:
                     model = "Err"
                 plan_items.append(f"({model}, {spec})")
-            return (f"let v := mk_vmdk [XRaw {Z(case['fsize'])}] in "
+            return (f"let v := mk_vmdk [XRaw {Z(case['fsize'])} 0] in "
                     f"(Ok (v_size v, [0; 0; 0; 0; 0; 0; 0]), ([" + "; ".join(plan_items) + "] : list (res xplan * list seg)), "
                     "@nil (res (list (list Z))), "
                     "@nil (Z * (Z * Z)))")
